@@ -391,10 +391,13 @@ func (c16) Run(ctx *Ctx, ci interface{}) (o Outcome) {
 
 	cfg := SchedCfg{Seed: c.Seed, Policy: c.Policy, Choices: c.Choices, Strict: ctx.Strict, MaxSteps: budget}
 	var run phaseRun
-	cliEligible := false
+	cliEligible, cliFaulty := false, false
 	defer func() {
 		if c.Cli != "" && cliEligible && o.V == nil && ctx.Diverged == "" {
 			c.runCLI(ctx, &o, run.results)
+		}
+		if c.Cli != "" && cliFaulty && o.V == nil && ctx.Diverged == "" {
+			c.runCLI(ctx, &o, nil)
 		}
 		if o.V == nil && ctx.Diverged == "" && !faulty && Mix(c.Seed, "smallest-reference")%12 == 0 {
 			// the smallest references there are - a start codon, a start and a stop codon - alone: whatever the
@@ -632,6 +635,7 @@ func (c16) Run(ctx *Ctx, ci interface{}) (o Outcome) {
 			return
 		}
 		o.Add("fault_translate_error_delivered", 1)
+		cliFaulty = true
 		return
 	}
 	cliEligible = nerr == 0
@@ -952,6 +956,17 @@ func (c *C16Case) runCLI(ctx *Ctx, o *Outcome, results []phRes) {
 	}
 	if res.sr.Deadlock || res.sr.Budget {
 		o.Fail("hang:cli:"+sub, "%s does not return: %s", what, res.sr.Stacks)
+		return
+	}
+	if results == nil {
+		// the input holds a sequence that cannot be translated and the library call reports the error: so must the
+		// command - it may not end as a success with the sequences it could phase (or none at all)
+		if res.err == nil && res.exit < 0 {
+			n, _ := parseFastaText(res.files["out.nt.fa"])
+			o.Fail("cli-differs:error-not-reported:"+sub, "%s ends as a success (%d sequences written for %d given); the library call with the same options reports an error for the sequence that cannot be translated", what, len(n), len(names))
+			return
+		}
+		o.Add("command_line_reports_the_error", 1)
 		return
 	}
 	if res.err != nil || res.exit >= 0 {
